@@ -251,9 +251,12 @@ def oracle(cuqi, M, classes, cfg, fail):
         sweeps = []
         orig = a.step
 
+        points = []
+
         def step():
             orig()
             sweeps.append(np.concatenate([np.asarray(a.current_samples[p], dtype=float).ravel() for p in a.par_names]))
+            points.append(np.concatenate([np.asarray(a.samplers[p].current_point, dtype=float).ravel() for p in a.par_names]))
         a.step = step
         a.warmup(K, tune_freq=0.5)
         a.sample(N)
@@ -265,6 +268,9 @@ def oracle(cuqi, M, classes, cfg, fail):
     if len(sweeps) == len(ref) and not eq(ref, sweeps):
         fail("consecutive", "i-th stored state = state after the i-th sweep", "differs", "stored Gibbs chain is not the sequence of consecutive states",
              {"ops": [f"warmup({K})", f"sample({N})"]})
+    if len(points) == len(ref) and not eq(ref, points):
+        fail("consecutive", "i-th stored entry = current_point of the block samplers after the i-th sweep", "differs",
+             "the recorded Gibbs chain lists values that are not the states produced by the block samplers' transitions", {"ops": [f"warmup({K})", f"sample({N})"]})
     for p in range(N + 1):
         try:
             b = build(cuqi, M, classes, base, Script(cfg["stream"]))
